@@ -388,7 +388,10 @@ def extra_state_kind(M, rec, rng, st):
     n1, n2, n3 = M.Node(name="A"), M.Node(name="B"), M.Node(name="C")
     l1 = mk(UK.TtsLink, rng.choice((2, 3)), "L1")
     l2 = mk(rng.choice((UK.TtsLink, M.Link)), rng.choice((1, 2)), "L2")
-    org = rng.choice((M.MeteredOnRamp(2000.0, name="O1"), M.MainstreamOrigin(name="O1")))
+    # (the third: a kind whose disturbance carries the name of the links' speed state - groups are per kind of variable)
+    org = rng.choice((M.MeteredOnRamp(2000.0, name="O1"), M.MainstreamOrigin(name="O1"), UK.MeasuredSpeedOrigin(name="O1"), UK.MeasuredSpeedOrigin(name="O1")))
+    if isinstance(org, UK.MeasuredSpeedOrigin):
+        rec.count("extra_state_kind_with_a_name_shared_across_variable_kinds")
     net = M.Network().add_path((n1, l1, n2, l2, n3), origin=org, destination=M.Destination(name="D1"))
     eng = CE(st)
     pars = dict(T=10 / 3600, tau=18 / 3600, eta=60.0, kappa=40.0)
